@@ -863,7 +863,7 @@ pub fn c14_checks() -> Vec<Box<dyn DynCheck>> {
 
 // ------------------------------------------------------------------------------ C15
 
-pub const C15_RULE: &str = "(a) the WHOLE compiled opening-book trie is walked depth-first through Book::default().get_next_moves(prefix): the prefix must replay legally from the standard starting position on the reference rules and every child (from, to) must be the from/to of a reference-legal move there; (b) at every trie node a Game::new(1) is advanced by the prefix through the Game API and select_waterfall_book_then_alpha_beta_best_move is called k times (the engine's own thread_rng picks among children): Ok(move) in the reference legal set, snapshot unchanged; (c) off-book histories: follow a book line for j plies, then deviate with generated legal moves, asking for the engine's move at every step; (d) supplied positions: Game::from_board(set-up from the themes) - histories that are empty or match book moves by squares only - must yield Ok(legal move) whenever a legal move exists. Non-trivial = trie node with >= 1 continuation, off-book deviation, or supplied position in which a root book move is not legal; distinct = hash of the prefix / case.";
+pub const C15_RULE: &str = "(a) the WHOLE compiled opening-book trie is walked depth-first through Book::default().get_next_moves(prefix): the prefix must replay legally from the standard starting position on the reference rules and every child (from, to) must be the from/to of a reference-legal move there; (b) at every trie node a Game::new(1) is advanced by the prefix through the Game API and select_waterfall_book_then_alpha_beta_best_move is called k times (the engine's own thread_rng picks among children): Ok(move) in the reference legal set, snapshot unchanged; (c) off-book histories: follow a book line for j plies, then deviate with generated legal moves, asking for the engine's move at every step; (d) supplied positions: Game::from_board(set-up from the themes) - histories that are empty or match book moves by squares only - must yield Ok(legal move) whenever a legal move exists; (e) the built `chess play` binary is driven over stdin: after every typed move the diagram printed before the next prompt must be the reference successor of one of the engine's legal moves. Non-trivial = trie node with >= 1 continuation, off-book deviation, or supplied position in which a root book move is not legal; distinct = hash of the prefix / case.";
 
 fn book_children(book: &Book, prefix: &[Mv]) -> Vec<(u8, u8)> {
     let line: Vec<BookMove> = prefix.iter().map(|m| BookMove::new(bb(m.from), bb(m.to))).collect();
@@ -1187,6 +1187,276 @@ impl Prop for C15Supplied {
     }
 }
 
+// ---- `chess play` over stdin: the human types coordinate pairs, the engine answers
+
+fn strip_ansi(line: &str) -> String {
+    let mut out = String::new();
+    let mut chars = line.chars().peekable();
+    while let Some(c) = chars.next() {
+        if c == '\u{1b}' {
+            if chars.peek() == Some(&'[') {
+                chars.next();
+                while let Some(&d) = chars.peek() {
+                    chars.next();
+                    if d.is_ascii_alphabetic() {
+                        break;
+                    }
+                }
+            }
+        } else {
+            out.push(c);
+        }
+    }
+    out
+}
+
+struct PlayCli {
+    child: std::process::Child,
+    stdin: std::process::ChildStdin,
+    rx: std::sync::mpsc::Receiver<String>,
+}
+
+enum PlayEvent {
+    /// the prompt appeared; the last complete diagram printed before it
+    Prompt(Option<[Option<(P, Side)>; 64]>, Vec<String>),
+    /// the program announced the end of the game or closed its output
+    Ended(Option<[Option<(P, Side)>; 64]>, Vec<String>),
+}
+
+impl PlayCli {
+    fn spawn(depth: u8, white: bool) -> PlayCli {
+        use std::io::BufRead;
+        let bin = "/verif/target/debug/chess";
+        if !std::path::Path::new(bin).exists() {
+            eprintln!("INCONCLUSIVE: {} not built", bin);
+            std::process::exit(2);
+        }
+        let mut child = std::process::Command::new(bin)
+            .args(["play", "--depth", &depth.to_string(), "--color", if white { "white" } else { "black" }])
+            .stdin(std::process::Stdio::piped())
+            .stdout(std::process::Stdio::piped())
+            .stderr(std::process::Stdio::null())
+            .spawn()
+            .unwrap_or_else(|e| {
+                eprintln!("INCONCLUSIVE: cannot spawn {}: {}", bin, e);
+                std::process::exit(2)
+            });
+        let stdin = child.stdin.take().unwrap();
+        let stdout = child.stdout.take().unwrap();
+        let (tx, rx) = std::sync::mpsc::channel();
+        std::thread::spawn(move || {
+            let r = std::io::BufReader::new(stdout);
+            for line in r.lines() {
+                match line {
+                    Ok(l) => {
+                        if tx.send(l).is_err() {
+                            break;
+                        }
+                    }
+                    Err(_) => break,
+                }
+            }
+        });
+        PlayCli { child, stdin, rx }
+    }
+
+    fn send(&mut self, text: &str) {
+        use std::io::Write;
+        let _ = writeln!(self.stdin, "{}", text);
+        let _ = self.stdin.flush();
+    }
+
+    fn next_event(&mut self) -> PlayEvent {
+        let mut last: Option<[Option<(P, Side)>; 64]> = None;
+        let mut cur: [Option<(P, Side)>; 64] = [None; 64];
+        let mut rows_seen = 0;
+        let mut log: Vec<String> = Vec::new();
+        loop {
+            let raw = match self.rx.recv_timeout(std::time::Duration::from_secs(180)) {
+                Ok(l) => l,
+                Err(std::sync::mpsc::RecvTimeoutError::Disconnected) => return PlayEvent::Ended(last, log),
+                Err(_) => {
+                    eprintln!("INCONCLUSIVE: `chess play` produced no output for 180 s; last lines: {:?}", log);
+                    std::process::exit(2);
+                }
+            };
+            let line = strip_ansi(&raw);
+            if log.len() < 400 {
+                log.push(line.clone());
+            }
+            let t = line.trim();
+            if t.starts_with("Enter your move") {
+                return PlayEvent::Prompt(last, log);
+            }
+            if t.contains("checkmate!") || t.contains("stalemate!") {
+                return PlayEvent::Ended(last, log);
+            }
+            // diagram rows: "8 │ ♖ │ ♘ │ ... │ 8"
+            let cells: Vec<&str> = t.split('│').collect();
+            if cells.len() == 10 {
+                if let Ok(rank) = cells[0].trim().parse::<u8>() {
+                    if (1..=8).contains(&rank) {
+                        if rank == 8 {
+                            cur = [None; 64];
+                            rows_seen = 0;
+                        }
+                        for f in 0..8 {
+                            let c = cells[1 + f].trim();
+                            let ch = c.chars().next();
+                            let sq = ((rank - 1) * 8 + f as u8) as usize;
+                            cur[sq] = match ch {
+                                None | Some('·') => None,
+                                Some(g) => match GLYPHS.iter().find(|x| x.0 == g) {
+                                    Some(x) => Some(x.1),
+                                    None => {
+                                        eprintln!("INCONCLUSIVE: unknown diagram glyph {:?}", g);
+                                        std::process::exit(2);
+                                    }
+                                },
+                            };
+                        }
+                        rows_seen += 1;
+                        if rank == 1 && rows_seen == 8 {
+                            last = Some(cur);
+                        }
+                    }
+                }
+            }
+        }
+    }
+}
+
+impl Drop for PlayCli {
+    fn drop(&mut self) {
+        let _ = self.child.kill();
+        let _ = self.child.wait();
+    }
+}
+
+#[derive(Clone, Debug, Serialize, Deserialize)]
+pub struct PlayCase {
+    pub white: bool,
+    pub depth: u8,
+    pub sels: Vec<u16>,
+}
+
+/// The human-v-computer loop of the command line: after every typed move the engine must answer
+/// with a legal move (book first, search afterwards) - the diagram printed before the next prompt
+/// must be the reference successor of one of the engine's legal moves.
+pub struct C15CliPlay;
+impl Prop for C15CliPlay {
+    type Case = PlayCase;
+    fn name(&self) -> &'static str {
+        "C15/cli-play"
+    }
+    fn shards(&self) -> usize {
+        4
+    }
+    fn max_shrink_iters(&self) -> u32 {
+        12
+    }
+    fn strategy(&self, _tier: Tier) -> BoxedStrategy<PlayCase> {
+        (any::<bool>(), 1u8..=2, prop::collection::vec(any::<u16>(), 2..7))
+            .prop_map(|(white, depth, sels)| PlayCase { white, depth, sels })
+            .boxed()
+    }
+    fn cases(&self, tier: Tier) -> u32 {
+        tier.pick(6, 96)
+    }
+    fn test(&self, c: &PlayCase, st: &mut Stats) -> TestResult {
+        let me = if c.white { Side::White } else { Side::Black };
+        let mut cli = PlayCli::spawn(c.depth, c.white);
+        let mut cur = Pos::start();
+        let mut engine_moves: Vec<String> = Vec::new();
+        let mut out_of_book = false;
+        let book = Book::default();
+        let mut history: Vec<Mv> = Vec::new();
+        // returns Ok(true) to go on, Ok(false) when the game is over
+        let mut absorb = |ev: PlayEvent, cur: &mut Pos, history: &mut Vec<Mv>, engine_moves: &mut Vec<String>, out_of_book: &mut bool| -> Result<bool, Failure> {
+            let (shown, log, ended) = match ev {
+                PlayEvent::Prompt(b, l) => (b, l, false),
+                PlayEvent::Ended(b, l) => (b, l, true),
+            };
+            let tail: Vec<String> = log.iter().rev().take(6).rev().cloned().collect();
+            if cur.side == me {
+                // nothing for the engine to do: the diagram must show the current position
+                if let Some(b) = shown {
+                    if b != cur.sq {
+                        return Err(fail_pos("the diagram printed by `chess play` is not the current position".to_string(), cur));
+                    }
+                }
+                return Ok(!ended);
+            }
+            let legal = cur.legal_moves();
+            if legal.is_empty() {
+                return Ok(false);
+            }
+            let shown = match shown {
+                Some(b) => b,
+                None => return Err(fail_pos(format!("it is the engine's move but `chess play` printed no position; output ends {:?}", tail), cur)),
+            };
+            let m = legal.iter().find(|m| cur.make(m).sq == shown);
+            match m {
+                Some(m) => {
+                    if book_children(&book, history).is_empty() {
+                        *out_of_book = true;
+                    }
+                    engine_moves.push(notation::uci(m));
+                    history.push(*m);
+                    *cur = cur.make(m);
+                    Ok(!ended && !cur.legal_moves().is_empty())
+                }
+                None => {
+                    let mut p = Pos::empty();
+                    p.sq = shown;
+                    Err(fail_pos(
+                        format!(
+                            "with the engine to move ({} legal moves) `chess play` shows {} which is not the result of any legal move; output ends {:?}",
+                            legal.len(),
+                            p.fen().split(' ').next().unwrap_or(""),
+                            tail
+                        ),
+                        cur,
+                    ))
+                }
+            }
+        };
+        let mut ev = cli.next_event();
+        if !c.white {
+            // the program prints the initial diagram and a prompt before its loop starts, whoever
+            // is to move: with the human playing Black the engine's first move follows
+            if let PlayEvent::Prompt(Some(b), _) = &ev {
+                if *b == cur.sq {
+                    ev = cli.next_event();
+                }
+            }
+        }
+        if !absorb(ev, &mut cur, &mut history, &mut engine_moves, &mut out_of_book)? {
+            return Ok(());
+        }
+        for sel in &c.sels {
+            let legal: Vec<Mv> = cur.legal_moves().into_iter().filter(|m| m.promo.is_none() || m.promo == Some(P::Queen)).collect();
+            if legal.is_empty() {
+                break;
+            }
+            let m = gen::select(&legal, *sel);
+            cli.send(&format!("{}{}", sq_name(m.from), sq_name(m.to)));
+            cur = cur.make(&m);
+            history.push(m);
+            st.count("cli_play_moves", 1);
+            let ev = cli.next_event();
+            if !absorb(ev, &mut cur, &mut history, &mut engine_moves, &mut out_of_book)? {
+                break;
+            }
+        }
+        if out_of_book {
+            st.label("cli-play-engine-out-of-book");
+        }
+        st.nontrivial(fp_of(c), || json!({"human": if c.white { "white" } else { "black" }, "depth": c.depth, "engine_moves": engine_moves.join(" ")}));
+        Ok(())
+    }
+}
+
 pub fn c15_checks() -> Vec<Box<dyn DynCheck>> {
     vec![
         Box::new(FnCheck {
@@ -1196,6 +1466,7 @@ pub fn c15_checks() -> Vec<Box<dyn DynCheck>> {
         }),
         Box::new(C15OffBook),
         Box::new(C15Supplied),
+        Box::new(C15CliPlay),
     ]
 }
 
